@@ -699,10 +699,16 @@ func (e *endpoint) Connect(addr tcpip.FullAddress) *tcpip.Error {
 
 	// 新建一个传输端的标识，包括源IP、源端口、目的IP、目的端口
 	id := stack.TransportEndpointID{
-		LocalAddress:  r.LocalAddress,
+		LocalAddress:  e.id.LocalAddress,
 		LocalPort:     localPort,
 		RemotePort:    addr.Port,
 		RemoteAddress: r.RemoteAddress,
+	}
+
+	// A bound endpoint keeps the local address it reserved its port for, so
+	// that Close releases that very reservation.
+	if e.state == stateInitial {
+		id.LocalAddress = r.LocalAddress
 	}
 
 	// Even if we're connected, this endpoint can still be used to send
